@@ -17,7 +17,8 @@ The two compiled libraries underneath are replaced by their contracts:
       O2  the vertices are in convex counter-clockwise order (bounded cells: consistently oriented),
       O3  the region has all the finite Voronoi vertices of the cell and one far point on each of its two unbounded edges
           (the far point is equidistant from sensor i and the neighbour across that edge),
-      O4  the closing chord between the two far points leaves the whole boundary region on its inner side.
+      O4  the closing chord between the two far points leaves the whole boundary region on its inner side,
+      O5  every region IS handed to intersection() with the boundary region (or lies inside it for every layout of the class).
 
     O1+O2 give polygon_i inside cell_i; O2+O3+O4 give cell_i intersected with the boundary region inside polygon_i; hence
     polygon_i and cell_i cut the same piece out of the boundary region, the pieces tile it, and area_i / total area is the
@@ -41,10 +42,10 @@ STUBS = ["scipy.spatial.Voronoi -> Qhull's contract for a fixed Delaunay class: 
          "shapely Point/Polygon/contains -> strict inequalities on a symbolic rectangle; Polygon.intersection / .area not executed (set-level obligations O1-O4 instead)",
          "numpy.arctan2 -> exact angular order (half plane, then cross product sign); numpy.linalg.norm -> exact square root (fresh real s >= 0, s*s = x*x + y*y)"]
 ASSUMPTIONS = ["sensor coordinates in general position inside one Delaunay class per instance (strict orientation / empty-circle / hull-side inequalities)",
-               "the boundary region is an axis-parallel rectangle strictly containing the retained sensors; dropped sensors strictly outside",
+               "the boundary region is an axis-parallel rectangle or a diamond |x-cx|+|y-cy| < a strictly containing the retained sensors; dropped sensors outside",
                "the order of Qhull's ridge / region tables is the one Qhull produced for the class's reference layout",
                "GEOS computes intersection and area of valid polygons correctly; floats as reals"]
-OUTSIDE = ["boundaries other than rectangles (the chord obligation is stated for the rectangle's corners)", "more than 5 retained sensors; degenerate (cocircular / collinear) layouts",
+OUTSIDE = ["boundaries other than axis-parallel rectangles and diamonds (4 corners)", "more than 5 retained sensors; degenerate (cocircular / collinear) layouts",
            "floating-point round-off in Qhull / GEOS at coordinate magnitudes of 1e4 array extents", "spatial_weights' dispatch, plot_voronoi"]
 
 BOUNDS = {"quick": {"layouts": "quad (4 sensors in convex position), right (right-triangular hull with legs along the axes + 1 interior sensor)", "families": "one sensor free along x inside its Delaunay class (each sensor in turn); the whole layout under arbitrary translation and positive scaling; one extra sensor outside the boundary at list positions 0 / last",
@@ -84,6 +85,10 @@ def instances(tier):
                 # two free coordinates: most queries exceed nlsat's reach in the budget (reported inconclusive); kept small on purpose
                 out.append({"name": f"voronoi_{lay}_sensor{i}_free_xy", "func": "run_voronoi", "kwargs": {"layout": lay, "free_site": i, "free_dims": 2}, "timeout": T})
         out.append({"name": f"voronoi_{lay}_sensor0_free_x_dropped_last", "func": "run_voronoi", "kwargs": {"layout": lay, "free_site": 0, "free_dims": 1, "drop_at": n}, "timeout": T})
+    # a boundary region that is not its own bounding box (diamond), layouts with a bounded cell
+    for lay in (["right"] if tier == "quick" else ["right", "centre"]):
+        out.append({"name": f"voronoi_{lay}_diamond_similarity", "func": "run_voronoi", "kwargs": {"layout": lay, "free_site": 0, "similarity": True, "mask_shape": "diamond"}, "timeout": T})
+        out.append({"name": f"voronoi_{lay}_diamond_sensor3_free_x", "func": "run_voronoi", "kwargs": {"layout": lay, "free_site": 3, "free_dims": 1, "mask_shape": "diamond"}, "timeout": T})
     return out
 
 
@@ -149,6 +154,30 @@ class Box:
         return FakePoint((self.xl + self.xh) / 2, (self.yl + self.yh) / 2)
 
 
+class Diamond:
+    """The boundary region as a symbolic diamond |x - cx| + |y - cy| < a: its bounding box is NOT the region."""
+
+    def __init__(self, cx, cy, a):
+        self.cx, self.cy, self.a = cx, cy, a
+
+    def _edges(self, x, y):
+        dx, dy = x - self.cx, y - self.cy
+        return [dx + dy < self.a, dx - dy < self.a, -dx + dy < self.a, -dx - dy < self.a]
+
+    def contains(self, p):
+        x, y = p.xy
+        e = self._edges(x, y)
+        return bool(e[0] & e[1] & e[2] & e[3])
+
+    @property
+    def corners(self):
+        return [(self.cx + self.a, self.cy), (self.cx, self.cy + self.a), (self.cx - self.a, self.cy), (self.cx, self.cy - self.a)]
+
+    @property
+    def bounds(self):
+        return (self.cx - self.a, self.cy - self.a, self.cx + self.a, self.cy + self.a)
+
+
 class FakePolygon:
     made = []
 
@@ -157,6 +186,7 @@ class FakePolygon:
         FakePolygon.made.append(self)
 
     def intersection(self, mask):
+        self.clipped_with = mask
         return self
 
     @property
@@ -216,7 +246,7 @@ def make_voronoi_stub(ctx, topo, ref, record):
 ROTATIONS = {"id": (1.0, 0.0), "r345": (0.6, 0.8), "r-5-12-13": (-5.0 / 13.0, 12.0 / 13.0)}
 
 
-def run_voronoi(rep, tier, layout, drop_at=None, L=None, scale="free", free_site=None, rotation="id", similarity=False, free_dims=2, free_axis="x"):
+def run_voronoi(rep, tier, layout, drop_at=None, L=None, scale="free", free_site=None, rotation="id", similarity=False, free_dims=2, free_axis="x", mask_shape="box"):
     Ld = L()
     HS = Ld["hvsr_spatial"]
     ref = LAYOUTS[layout]
@@ -256,18 +286,21 @@ def run_voronoi(rep, tier, layout, drop_at=None, L=None, scale="free", free_site
                 coords[i, 0] = Sym(Sym.lift((x0 * c - y0 * s_) * sc + tx))
                 coords[i, 1] = Sym(Sym.lift((x0 * s_ + y0 * c) * sc + ty))
                 k += 1
-        box = Box(Sym.var("bxl", ctx), Sym.var("bxh", ctx), Sym.var("byl", ctx), Sym.var("byh", ctx))
-        ctx.assume(z3.And(box.xl.e < box.xh.e, box.yl.e < box.yh.e))
         keep = [i for i in range(total) if i != drop_at]
-        for i in keep:
-            ctx.assume(z3.And(box.xl.e < coords[i, 0].e, coords[i, 0].e < box.xh.e, box.yl.e < coords[i, 1].e, coords[i, 1].e < box.yh.e))
-        if drop_at is not None:
-            x, y = coords[drop_at]
-            ctx.assume(z3.Or(x.e < box.xl.e, x.e > box.xh.e, y.e < box.yl.e, y.e > box.yh.e))
-        if scale != "free":
-            # BOUND for the chord obligation: the rectangle lies within [-scale, scale]^2
-            s = qval(scale)
-            ctx.assume(z3.And(box.xl.e >= -s, box.xh.e <= s, box.yl.e >= -s, box.yh.e <= s))
+        if mask_shape == "diamond":
+            box = Diamond(Sym.var("dcx", ctx), Sym.var("dcy", ctx), Sym.var("da", ctx, pos=True))
+            for i in keep:
+                ctx.assume(z3.And(*[e.e for e in box._edges(coords[i, 0], coords[i, 1])]))
+            if drop_at is not None:
+                ctx.assume(z3.Not(z3.And(*[(e.e) for e in box._edges(coords[drop_at, 0], coords[drop_at, 1])])))
+        else:
+            box = Box(Sym.var("bxl", ctx), Sym.var("bxh", ctx), Sym.var("byl", ctx), Sym.var("byh", ctx))
+            ctx.assume(z3.And(box.xl.e < box.xh.e, box.yl.e < box.yh.e))
+            for i in keep:
+                ctx.assume(z3.And(box.xl.e < coords[i, 0].e, coords[i, 0].e < box.xh.e, box.yl.e < coords[i, 1].e, coords[i, 1].e < box.yh.e))
+            if drop_at is not None:
+                x, y = coords[drop_at]
+                ctx.assume(z3.Or(x.e < box.xl.e, x.e > box.xh.e, y.e < box.yl.e, y.e > box.yh.e))
         record = {}
         HS.Voronoi = make_voronoi_stub(ctx, topo, ref, record)
         HS.Point, HS.Polygon = FakePoint, FakePolygon
@@ -285,7 +318,8 @@ def run_voronoi(rep, tier, layout, drop_at=None, L=None, scale="free", free_site
             regions, indices = sp._bounded_voronoi(box)
         finally:
             del HS.np.arctan2
-        return coords, box, keep, record["vor"], regions, indices
+        clipped = {tuple(id(v) for v in fp.pts[:-1, 0]) for fp in FakePolygon.made if getattr(fp, "clipped_with", None) is box}
+        return coords, box, keep, record["vor"], regions, indices, clipped
 
     cache = {}
     nval = [0]
@@ -313,14 +347,18 @@ def run_voronoi(rep, tier, layout, drop_at=None, L=None, scale="free", free_site
     sc_term = z3.Real("sc") if similarity else z3.RealVal(1)
     tx_term = z3.Real("tx") if similarity else z3.RealVal(0)
     ty_term = z3.Real("ty") if similarity else z3.RealVal(0)
-    for ctx, (coords, box, keep, vor, regions, indices) in rep.explore(run, max_paths=24 if tier == "quick" else 100, timeout_ms=8000):
+    for ctx, (coords, box, keep, vor, regions, indices, clipped) in rep.explore(run, max_paths=24 if tier == "quick" else 100, timeout_ms=8000):
         rep.reachable(ctx)
         P = vor.points
 
         def W(m, coords=coords, box=box):
             val = concretiser(m)
-            return {"kind": "voronoi", "layout": layout, "free_site": free_site, "rotation": rotation, "coordinates": [[val(x), val(y)] for x, y in coords],
-                    "box": [val(box.xl), val(box.xh), val(box.yl), val(box.yh)]}
+            d = {"kind": "voronoi", "layout": layout, "free_site": free_site, "rotation": rotation, "coordinates": [[val(x), val(y)] for x, y in coords]}
+            if mask_shape == "diamond":
+                d["boundary"] = [[val(x), val(y)] for x, y in box.corners]
+            else:
+                d["box"] = [val(box.xl), val(box.xh), val(box.yl), val(box.yh)]
+            return d
         # cross-validation of the Qhull contract: real scipy on a model of this path must return the class's tables
         if nval[0] < 3:
             r0, m0 = ctx.model()
@@ -349,6 +387,14 @@ def run_voronoi(rep, tier, layout, drop_at=None, L=None, scale="free", free_site
             else:
                 rep.candidate(W(ctx.model()[1]), f"region {i}: vertices {got_finite} + {sum(is_far)} far points, cell has {sorted(cell_vertices)} + {len(inf_ridges)} unbounded edges", key="voronoi-region-structure")
                 continue
+            # O5: the region handed over for clipping - or provably inside the boundary region already
+            if tuple(id(v) for v in poly[:, 0]) not in clipped:
+                cs_ = box.corners
+                outside = z3.Or(*[(_orient(cs_[e], cs_[(e + 1) % len(cs_)], w) < 0).e for w in poly for e in range(len(cs_))])
+                decide(ctx, f"region {i}: not intersected with the boundary region although a vertex can lie outside it (O5)", outside, W, "voronoi-region-not-clipped", 20000)
+            else:
+                rep.obligations += 1
+                rep.discharged += 1
             # O1
             for j, w in enumerate(poly):
                 bad = z3.Or(*[(_d2(w, P[i]) > _d2(w, P[k])).e for k in range(n) if k != i])
@@ -372,7 +418,8 @@ def run_voronoi(rep, tier, layout, drop_at=None, L=None, scale="free", free_site
                     a, b = poly[j], poly[(j + 1) % m]
                     # BOUND of O4: the boundary rectangle within 1e3 layout units (x the uniform scaling), the free sensor within 1e2
                     u = sc_term * 1000
-                    bounds = [box.xl.e >= -u + tx_term, box.xh.e <= u + tx_term, box.yl.e >= -u + ty_term, box.yh.e <= u + ty_term]
+                    bxl, byl, bxh, byh = box.bounds
+                    bounds = [bxl.e >= -u + tx_term, bxh.e <= u + tx_term, byl.e >= -u + ty_term, byh.e <= u + ty_term]
                     if free_site is not None and not similarity:
                         bounds += [z3.Real("fx") >= -100, z3.Real("fx") <= 100] + ([z3.Real("fy") >= -100, z3.Real("fy") <= 100] if free_dims == 2 else [])
                     for ci, c in enumerate(box.corners):
@@ -445,9 +492,13 @@ def replay(spec):
     import hvsrpy
     from hvsrpy.hvsr_spatial import HvsrSpatial
     coords = np.array(spec["coordinates"], dtype=float)
-    xl, xh, yl, yh = [float(v) for v in spec["box"]]
-    boundary = np.array([(xl, yl), (xh, yl), (xh, yh), (xl, yh)])
-    inside = [i for i, (x, y) in enumerate(coords) if xl < x < xh and yl < y < yh]
+    if spec.get("boundary"):
+        boundary = np.array(spec["boundary"], dtype=float)
+    else:
+        xl, xh, yl, yh = [float(v) for v in spec["box"]]
+        boundary = np.array([(xl, yl), (xh, yl), (xh, yh), (xl, yh)])
+    nb = len(boundary)
+    inside = [i for i, p in enumerate(coords) if all(_orient(boundary[e], boundary[(e + 1) % nb], p) > 0 for e in range(nb))]
     areas = clip_cells([tuple(coords[i]) for i in inside], [tuple(b) for b in boundary])
     tot = sum(areas)
     want = [float(a / tot) for a in areas]
@@ -463,4 +514,4 @@ def replay(spec):
     err = float(np.max(np.abs(got - np.array(want))))
     bad = err > 1e-6 or abs(got.sum() - 1) > 1e-6 or (got < 0).any()
     return {"reproduced": bool(bad), "key": "voronoi-weights",
-            "detail": f"sensors {coords[inside].tolist()} in [{xl}, {xh}] x [{yl}, {yh}]: weights {got.tolist()} (sum {got.sum()}) vs nearest-sensor area fractions {want}"[:600]}
+            "detail": f"sensors {coords[inside].tolist()} in boundary {boundary.tolist()}: weights {got.tolist()} (sum {got.sum()}) vs nearest-sensor area fractions {want}"[:600]}
